@@ -3,7 +3,7 @@
 seeds="$1"; shift
 for p in "$@"; do
   name=$(basename $(dirname $p))
-  git -C /repo apply "$p" || { echo "$name APPLY-FAILED"; continue; }
+  git -C /repo apply "$(realpath $p)" || { echo "$name APPLY-FAILED"; continue; }
   for s in $seeds; do
     t0=$(date +%s)
     out=$(VERIF_SEED=$s /verif/check C20 --tier quick 2>&1); rc=$?
